@@ -3,7 +3,8 @@
 World C: one real ClientSession against 1-3 scripted raw origins that may
 misbehave (surplus / unsolicited responses and fragments, early responses to
 uploads, truncation, close, reset, stall, FIN or junk while the connection
-idles in the pool; also well-behaved: interim 1xx responses before a later final response), directly or through scripted forwarding proxies (absolute
+idles in the pool; also well-behaved: interim 1xx responses before a later final response; HTTP/1.0 answers with or
+without keep-alive and 'Connection: close' followed by a lingering close), directly or through scripted forwarding proxies (absolute
 form and CONNECT tunnels) with per-request proxy credentials / TLS settings.
 Every response carries a marker (origin, connection, the request id it answers
 or 'none', serial).  DESIGN.md section 9, C06.
@@ -38,7 +39,9 @@ LEVEL_TEXT = (
     "a connection taken from the pool is not one the client already knew to have ended (transport closing: FIN read, or "
     "closed by the client after unparsable bytes) at the step it is handed out; when a connection without stray bytes is "
     "handed to its next request, the peer's complete final answer to the request before it has reached the client (a "
-    "response that has not arrived cannot have been read to its end). Sampling, not proof."
+    "response that has not arrived cannot have been read to its end); a connection whose peer announced its end in the "
+    "answer the caller was given (HTTP/1.0 without keep-alive, Connection: close) carries no request handed over after that "
+    "answer had arrived. Sampling, not proof."
 )
 LEVEL_NOTE = (
     "Trusted: the scripted origins' bookkeeping (what they sent, at which stream offset), SimNet delivery log (arrival "
@@ -67,6 +70,10 @@ RULE = (
     "(103, 102, an unsolicited 100, unregistered 1xx codes; never 101) and sends the final response 0-8 ms later in a write "
     "of its own, answering in request order; the task's next request mostly goes to the same route at once or around the "
     "instant the final response arrives. "
+    "In 10 % of the runs: answers that speak of the connection's future - an HTTP/1.0 origin answering with a length-"
+    "delimited response (Content-Length, 204, 304) with no Connection header / keep-alive / close, or an HTTP/1.1 origin "
+    "saying Connection: close; a peer that announced the end that way reads nothing more from the connection and closes "
+    "it 1-300 ms later (lingering close), the task's next request mostly going to the same route at once or around then. "
     "Non-trivial: a connection was reused at least once AND at least one misbehaviour or caller-side abnormal end fired."
 )
 COMPONENTS = {
@@ -141,6 +148,7 @@ def gen(rng, tier, index):
     _gen_extras(scn, random.Random(rng.getrandbits(64)))
     _gen_routes_and_idle_end(scn, random.Random(rng.getrandbits(64)))
     _gen_interim(scn, random.Random(rng.getrandbits(64)))
+    _gen_announced_end(scn, random.Random(rng.getrandbits(64)))
     return scn
 
 
@@ -239,6 +247,49 @@ def _gen_interim(scn, rng):
                 nx["gap"] = rng.choice([0, 0, 0, 1, r["interim"]["delay"], r["interim"]["delay"] + 2])
 
 
+def _gen_announced_end(scn, rng):
+    """(f) peers that speak of the connection's future in their answer: an HTTP/1.0 origin (status line HTTP/1.0) that
+    answers with a length-delimited response (Content-Length, or a 204 / 304 without body) and no Connection header,
+    'Connection: keep-alive' or 'Connection: close'; also an HTTP/1.1 origin that says 'Connection: close'.  A peer that
+    announced the end of the connection that way (HTTP/1.0 without keep-alive; 'close') is finished with it: it reads
+    nothing more from it and closes it a few ms later (lingering close) - so the next request of the task, mostly for
+    the same route and issued at once or around that instant, finds the connection still open on the client's side.
+    A peer that said keep-alive (or HTTP/1.1 without 'close') serves the connection on as usual."""
+    if rng.random() >= 0.10:
+        return
+    nid = 1 + max(r["id"] for reqs in scn["tasks"] for r in reqs)
+    for reqs in scn["tasks"]:
+        i = 0
+        while i < len(reqs):
+            r = reqs[i]
+            i += 1
+            if r["beh"] == "stall" or r.get("up") or r.get("interim") or rng.random() >= 0.6:
+                continue
+            ver = rng.choice(["1.0", "1.0", "1.0", "1.1"])
+            r["old"] = {"ver": ver, "conn": "close" if ver == "1.1" else rng.choice([None, None, None, "ka", "close"]),
+                        "status": rng.choice([200, 200, 200, 204, 304]), "linger": rng.choice([1, 3, 8, 30, 300])}
+            r["beh"], r["total"] = "ok", None
+            if rng.random() < 0.8:
+                r["after"] = "read"
+            if i == len(reqs) and nid < 15 and rng.random() < 0.7:
+                reqs.append({"id": nid, "origin": r["origin"], "beh": "ok", "after": "read", "gap": 0, "post": False,
+                             "total": None})
+                nid += 1
+            if i < len(reqs) and rng.random() < 0.8:
+                nx = reqs[i]
+                nx["origin"] = r["origin"]
+                for f in ("via", "tls"):
+                    nx.pop(f, None)
+                    if f in r:
+                        nx[f] = dict(r[f])
+                nx["gap"] = max(0, rng.choice([0, 0, 0, 1, r["old"]["linger"] - 1, r["old"]["linger"] + 1]))
+
+
+def _announces_end(old):
+    """the answer says that the peer will not serve this connection any further (RFC 9112, 9.3 and 9.6)"""
+    return old["conn"] == "close" or (old["ver"] == "1.0" and old["conn"] != "ka")
+
+
 def shrink(scn):
     if scn["cancels"]:
         for i in range(len(scn["cancels"])):
@@ -259,7 +310,7 @@ def shrink(scn):
                     yield dict(scn, tasks=ts[:ti] + [reqs[:i] + [dict(r, **{k: v})] + reqs[i + 1:]] + ts[ti + 1:])
             if r["beh"] not in ("ok",):
                 yield dict(scn, tasks=ts[:ti] + [reqs[:i] + [dict(r, beh="ok", total=None)] + reqs[i + 1:]] + ts[ti + 1:])
-            for f in ("via", "tls", "yields", "interim"):
+            for f in ("via", "tls", "yields", "interim", "old"):
                 if r.get(f):
                     yield dict(scn, tasks=ts[:ti] + [reqs[:i] + [{k: v for k, v in r.items() if k != f}] + reqs[i + 1:]] + ts[ti + 1:])
             via = r.get("via")
@@ -267,6 +318,11 @@ def shrink(scn):
                 for k, v in (("px", 0), ("cred", None), ("tag", None), ("how", "hdr")):
                     if via[k] != v:
                         yield dict(scn, tasks=ts[:ti] + [reqs[:i] + [dict(r, via=dict(via, **{k: v}))] + reqs[i + 1:]] + ts[ti + 1:])
+            old = r.get("old")
+            if old:
+                for k, v in (("status", 200), ("linger", 8), ("conn", None), ("ver", "1.0")):
+                    if old[k] != v:
+                        yield dict(scn, tasks=ts[:ti] + [reqs[:i] + [dict(r, old=dict(old, **{k: v}))] + reqs[i + 1:]] + ts[ti + 1:])
             it = r.get("interim")
             if it:
                 if len(it["codes"]) > 1:
@@ -389,12 +445,18 @@ def _run(scn, ch, log, connector_mod, BaseConn):
                 c.waiting = []
 
             def respond(self, c, req_tag, kind, body=b"", chunked=False, extra_hdr=b"", declared=None, status=200,
-                        reason=b"OK"):
+                        reason=b"OK", version=b"1.1"):
                 serial[0] += 1
                 n = serial[0]
                 marker = b"X-M: o%d.c%d.q%s.n%d" % (c.oidx, c.cid, str(req_tag).encode(), n)
                 body = body or (b"body-" + marker[5:])
-                line = b"HTTP/1.1 %d %s\r\n" % (status, reason)
+                line = b"HTTP/%s %d %s\r\n" % (version, status, reason)
+                if status in (204, 304):
+                    # a response that has no body by definition: delimited by its head alone, no length announced
+                    head, payload, body = line + marker + b"\r\n" + extra_hdr + b"\r\n", b"", b""
+                    msgs[n] = {"status": status, "reason": reason.decode(), "body": b"", "size": len(head),
+                               "headers": [(b"X-M", marker[5:])] + [tuple(h.split(b": ", 1)) for h in extra_hdr.split(b"\r\n") if h]}
+                    return n, head, payload
                 if chunked:
                     head = line + marker + b"\r\nTransfer-Encoding: chunked\r\n" + extra_hdr + b"\r\n"
                     payload = b"%x\r\n%s\r\n0\r\n\r\n" % (len(body), body)
@@ -467,7 +529,9 @@ def _run(scn, ch, log, connector_mod, BaseConn):
                                        "expect": low.get(b"expect", b"").lower() == b"100-continue",
                                        "early": opts.get("e"), "edelay": int(opts.get("d", "0")),
                                        "interim": [int(x) for x in opts["i"].split(".")] if opts.get("i") else [],
-                                       "idelay": int(opts.get("w", "0")), "ihdr": opts.get("h") == "1"}
+                                       "idelay": int(opts.get("w", "0")), "ihdr": opts.get("h") == "1",
+                                       "old": ({"ver": {"10": "1.0", "11": "1.1"}[opts["v"]], "conn": {"n": None, "ka": "ka", "cl": "close"}[opts["k"]],
+                                                "status": int(opts["s"]), "linger": int(opts["l"])} if opts.get("v") else None)}
                         info["framed"].append(cur)
                         c.mode = "body"
                         if framing != "none":
@@ -584,6 +648,30 @@ def _run(scn, ch, log, connector_mod, BaseConn):
                     extra = b"Connection: close\r\n" if beh == "connclose" else b""
                     # a final answer given instead of the '100 Continue' that was asked for is a refusal
                     st = (417, b"Expectation Failed") if early and cur["expect"] and cur["early"] == "final" else (200, b"OK")
+                    old = cur.get("old") if cur is not None and beh == "ok" and not early else None
+                    if old:
+                        # a peer that speaks of the connection's future: HTTP/1.0 (persistent only with keep-alive) or 'close'
+                        probes["answers_speaking_of_connection"] = probes.get("answers_speaking_of_connection", 0) + 1
+                        st = {200: (200, b"OK"), 204: (204, b"No Content"), 304: (304, b"Not Modified")}[old["status"]]
+                        extra = {None: b"", "ka": b"Connection: keep-alive\r\n", "close": b"Connection: close\r\n"}[old["conn"]]
+                        n, head, payload = self.respond(c, rid, "answer", extra_hdr=extra, status=st[0], reason=st[1],
+                                                        version=old["ver"].encode())
+                        self.send(c, n, head + payload, rid, "answer")
+                        if _announces_end(old):
+                            # the peer is finished with this connection: it reads nothing more from it and closes it a
+                            # little later (lingering close)
+                            probes["end_announced"] = probes.get("end_announced", 0) + 1
+                            msgs[n]["announces_end"] = "http10_without_keepalive" if old["conn"] != "close" else "connection_close"
+                            c.mode = "dead"
+
+                            def close_linger():
+                                if c.transport is None or c.transport.is_closing() or info["closed_by_server_step"] is not None:
+                                    return
+                                probes["lingering_close"] = probes.get("lingering_close", 0) + 1
+                                info["closed_by_server_step"] = loop.steps
+                                c.transport.close()
+                            loop.sim_call_later(old["linger"] * 0.001, close_linger)
+                        return
                     n, head, payload = self.respond(c, rid, "answer", chunked=chunked, extra_hdr=extra, status=st[0], reason=st[1])
                     if beh == "slowbody":
                         self.send(c, n, head, rid, "answer")
@@ -762,6 +850,7 @@ def _run(scn, ch, log, connector_mod, BaseConn):
         def same_endpoint(a, b):
             return ORIGINS[a][1:3] == ORIGINS[b][1:3]
         handover = {}  # reqid -> (step, "new"|"reuse")
+        handovers = {}  # reqid -> every hand-over of that request (a request the client retries is handed over again)
         delivered = {}  # reqid -> parsed marker tuple
         client_abnormal = []  # (conn id, kind, step, request id)
         req_conn = {}
@@ -769,10 +858,12 @@ def _run(scn, ch, log, connector_mod, BaseConn):
         async def on_create_end(session, ctx, params):
             rid = ctx.trace_request_ctx
             handover[rid] = (loop.steps, "new")
+            handovers.setdefault(rid, []).append((loop.steps, "new"))
 
         async def on_reuse(session, ctx, params):
             rid = ctx.trace_request_ctx
             handover[rid] = (loop.steps, "reuse")
+            handovers.setdefault(rid, []).append((loop.steps, "reuse"))
             probes["reuse"] += 1
 
         tc = aiohttp.TraceConfig()
@@ -838,6 +929,10 @@ def _run(scn, ch, log, connector_mod, BaseConn):
             it = r.get("interim")
             if it:
                 url += ("&" if "?" in url else "?") + f"i={'.'.join(str(x) for x in it['codes'])}&w={it['delay']}&h={int(it['hdr'])}"
+            old = r.get("old")
+            if old:
+                url += ("&" if "?" in url else "?") + (f"v={old['ver'].replace('.', '')}&k={ {None: 'n', 'ka': 'ka', 'close': 'cl'}[old['conn']] }"
+                                                       f"&s={old['status']}&l={old['linger']}")
             try:
                 resp = await meth(url, **kw)
             except asyncio.CancelledError:
@@ -1090,6 +1185,26 @@ def _run(scn, ch, log, connector_mod, BaseConn):
                             f"answer to request {prev}, the exchange before it on this connection, had not (completely) reached "
                             f"the client by then: that response cannot have been read to its end"
                             + (f" (the peer sent interim response(s) {all_reqs[prev]['interim']['codes']} first)" if all_reqs[prev].get("interim") else ""))
+                # a connection whose peer announced its end in the answer (HTTP/1.0 without keep-alive, or 'Connection:
+                # close' - the peer closes it and serves nothing more on it) is not reused: the raw server must not see
+                # another request on it that was handed over after that whole answer had reached the client
+                # (the hand-over meant is the one that put the request on this connection: the last one before the raw
+                # server saw the request - the client may have retried it elsewhere since)
+                ho_here = max((h for h in handovers.get(rid, []) if h[0] <= step), default=ho)
+                for n2 in sorted(sent):
+                    e2 = sent[n2]
+                    # judged when that answer is the response the caller of the request before was given (after stray
+                    # bytes the answers of a connection are shifted - a cascade of the stray, judged elsewhere)
+                    if (e2["conn"] == cid and e2["req"] == prev and e2["kind"] == "answer" and msgs.get(n2, {}).get("announces_end")
+                            and delivered.get(prev) is not None and int(delivered[prev][3]) == n2
+                            and answer_complete_before(cid, prev, ho_here[0])):
+                        violate("no_reuse_after_abnormal", "reused_after_peer_announced_end:" + msgs[n2]["announces_end"],
+                                f"connection c{cid}: the peer's answer n{n2} to request {prev} ({all_reqs[prev].get('old')}) announced "
+                                f"the end of the connection ({msgs[n2]['announces_end']}) and had completely reached the client, yet "
+                                f"the connection was handed to request {rid} at step {ho_here[0]} ({ho_here[1]}) and that request was "
+                                f"written into it at step {step} (the peer reads nothing more from it"
+                                + (f" and closed it at step {info['closed_by_server_step']})" if info["closed_by_server_step"] is not None else ")"))
+                        break
                 # server-side misbehaviour whose stray bytes reached the client before this hand-over
                 # only the first stray message is judged: everything after it on this connection is a cascade
                 for kind, n2 in sorted(info["abnormal"], key=lambda kn: kn[1])[:1]:
